@@ -246,6 +246,8 @@ func ExecROp(ws *WSeg, seg segment.Segment, op *ROp, h *ropHooks) (*RRes, error)
 				return r, fmt.Errorf("dictionary iterator does not terminate")
 			}
 		}
+		_ = it.Close()
+		_ = dict.Close()
 	case ROpPostings:
 		field, term, _ := ropTerm(ws, op)
 		dict, err := seg.Dictionary(field)
@@ -287,6 +289,17 @@ func ExecROp(ws *WSeg, seg segment.Segment, op *ROp, h *ropHooks) (*RRes, error)
 			if len(r.Posts) > 1<<22 {
 				return r, fmt.Errorf("postings iterator does not terminate")
 			}
+		}
+		if !h.reuse {
+			// done with it: Close (some callers close twice, e.g. a deferred
+			// Close after an explicit one)
+			if err := it.Close(); err != nil {
+				return r, fmt.Errorf("PostingsIterator.Close: %w", err)
+			}
+			if op.Term%2 == 1 {
+				_ = it.Close()
+			}
+			_ = dict.Close()
 		}
 	case ROpStored:
 		for _, d := range ropDocs(ws, op) {
